@@ -329,3 +329,71 @@ Theorem C08_set_presence_map_variant_same_on_decoded : forall f ms vs,
   set_walk_pm f ms (decoded vs) = set_walk f ms (decoded vs).
 Proof. exact set_walk_pm_same_on_decoded. Qed.
 Print Assumptions C08_set_presence_map_variant_same_on_decoded.
+
+(* ---- wave 5: overlapping unions with an open end; members stored by pointer (Rt/ConstraintsOpen.v) ---- *)
+From A1 Require Import Fix.CrangeProofs Rt.ConstraintsOpen.
+
+(* an open-ended alternative absorbs every later-starting one: `lb..MAX | a..b | ...` stays `lb..MAX` *)
+Theorem C08_open_alternative_absorbs_later_ones : forall rest ra,
+  right_open ra = true -> Forall wfp rest -> Forall (fun p => edge_compare (fst ra) (fst p) <= 0)%Z rest ->
+  union_loop ra rest = [ra].
+Proof. exact union_loop_absorbs. Qed.
+Print Assumptions C08_open_alternative_absorbs_later_ones.
+
+Theorem C08_open_alternative_keeps_its_values : forall rest ra z,
+  right_open ra = true -> Forall wfp rest -> Forall (fun p => edge_compare (fst ra) (fst p) <= 0)%Z rest ->
+  inp ra z -> inl (union_loop ra rest) z.
+Proof. exact union_loop_absorbs_den. Qed.
+Print Assumptions C08_open_alternative_keeps_its_values.
+
+Theorem C08_join_keeps_right_open : forall ra rb,
+  overlap ra rb = true -> right_open ra || right_open rb = true -> right_open (join ra rb) = true.
+Proof. exact join_keeps_right_open. Qed.
+Print Assumptions C08_join_keeps_right_open.
+
+Theorem C08_join_keeps_left_open : forall ra rb,
+  overlap ra rb = true -> left_open ra || left_open rb = true -> left_open (join ra rb) = true.
+Proof. exact join_keeps_left_open. Qed.
+Print Assumptions C08_join_keeps_left_open.
+
+Theorem C08_join_right_edge_is_the_larger : forall ra rb, overlap ra rb = true ->
+  (edge_compare (snd (join ra rb)) (snd ra) >= 0 /\ edge_compare (snd (join ra rb)) (snd rb) >= 0)%Z.
+Proof. exact join_right_max. Qed.
+Print Assumptions C08_join_right_edge_is_the_larger.
+
+(* the variant comparing plain .value fields (seeded change C08-10) loses `1..MAX` in `1..MAX | 5..10`, and cannot be
+   told from _range_union on unions whose right edges are all values *)
+Theorem C08_join_values_variant_refuted : exists ra rb z,
+  wfp ra /\ wfp rb /\ (edge_compare (fst ra) (fst rb) <= 0)%Z /\ joinable ra rb = true /\
+  inp ra z /\ ~ inp (join_values ra rb) z /\ inp (join ra rb) z.
+Proof. exact join_values_refuted. Qed.
+Print Assumptions C08_join_values_variant_refuted.
+
+Theorem C08_join_values_variant_same_when_bounded : forall ra rb x y,
+  snd ra = EV x -> snd rb = EV y -> join_values ra rb = join ra rb.
+Proof. exact join_values_same_when_bounded. Qed.
+Print Assumptions C08_join_values_variant_same_when_bounded.
+
+(* the walker's dispatch to the member's checker does not depend on how the member is stored *)
+Theorem C08_dispatch_storage_independent : forall (V R : Type) p q m t (v : V),
+  dispatch V R (mkSlot V R p m t) v = dispatch V R (mkSlot V R q m t) v.
+Proof. exact dispatch_storage_independent. Qed.
+Print Assumptions C08_dispatch_storage_independent.
+
+Theorem C08_dispatch_runs_member_checker : forall (V R : Type) (s : slot V R) f v,
+  s_memb V R s = Some f -> dispatch V R s v = f v.
+Proof. exact dispatch_runs_member_checker. Qed.
+Print Assumptions C08_dispatch_runs_member_checker.
+
+(* the variant handing a by-pointer member to its type's checker (seeded change C08-11) skips the member's own
+   constraint; inline or unconstrained members cannot tell *)
+Theorem C08_dispatch_ptr_type_variant_refuted : exists (s : slot Z bool) v,
+  s_ptr _ _ s = true /\ dispatch _ _ s v = false /\ dispatch_ptr_type _ _ s v = true /\
+  dispatch _ _ (mkSlot _ _ false (s_memb _ _ s) (s_type _ _ s)) v = false.
+Proof. exact dispatch_ptr_type_refuted. Qed.
+Print Assumptions C08_dispatch_ptr_type_variant_refuted.
+
+Theorem C08_dispatch_ptr_type_variant_same_when_inline_or_unconstrained : forall (V R : Type) (s : slot V R) v,
+  s_ptr V R s = false \/ s_memb V R s = None -> dispatch_ptr_type V R s v = dispatch V R s v.
+Proof. exact dispatch_ptr_type_same_when_inline_or_unconstrained. Qed.
+Print Assumptions C08_dispatch_ptr_type_variant_same_when_inline_or_unconstrained.
